@@ -765,6 +765,12 @@ class SqliteCaseReader(BaseCaseReader):
                         cases = self._list_cases_recurse_flat(source, out_stream=None)
                     else:
                         return self._list_cases_recurse_nested(source)
+                elif any(source in table.list_cases() for table in
+                         (self._driver_cases, self._system_cases, self._solver_cases)):
+                    # just the case with the given coordinate
+                    cases = [source]
+                else:
+                    raise RuntimeError('Case not found for coordinate:', source)
             else:
                 raise RuntimeError('Source not found: %s' % source)
 
